@@ -71,14 +71,17 @@ class RdflibTripleYielder(BaseTriplesYielder):
     @staticmethod
     def _integrate_namespaces_from_parsed_graph(a_graph, namespaces_dict):
 
+        prefixes_in_use = set(namespaces_dict.values())
         for a_prefix_namespace_tuple in a_graph.namespaces():
             candidate_uri = str(a_prefix_namespace_tuple[1])
-            if candidate_uri not in namespaces_dict:
+            candidate_prefix = str(a_prefix_namespace_tuple[0])
+            if candidate_uri not in namespaces_dict and candidate_prefix not in prefixes_in_use:
                 if candidate_uri == _XML_WRONG_URI:  # XML fix...
                     candidate_uri += "/"             # XML fix...
-                namespaces_dict[candidate_uri] = str(a_prefix_namespace_tuple[0])
-            # There is no else here. In case of conflict between the parsed content and the dict provided by the user,
-            # the user's one have priority
+                namespaces_dict[candidate_uri] = candidate_prefix
+                prefixes_in_use.add(candidate_prefix)
+            # There is no else here. In case of conflict between the parsed content and the dict provided by the user
+            # (or the prefix chosen for the shapes), the latter have priority: a prefix is never bound to two namespaces
 
 
     @staticmethod
